@@ -3,6 +3,7 @@ package main
 import (
 	"crypto/sha256"
 	"fmt"
+	"os"
 	"sort"
 	"strings"
 	"sync"
@@ -19,12 +20,185 @@ type hasher struct {
 	cells map[*Value]int
 	objs  map[interface{}]int
 	m     *Machine
+	// freeze mode: collect the cells / map objects visited for the first time
+	collect    bool
+	newCells   []*Value
+	newObjs    []interface{}
+	regs       map[*region]int // canonical instance numbering of regions, by first visit
+}
+
+func (h *hasher) regAlias(r *region) int {
+	if h.regs == nil {
+		h.regs = map[*region]int{}
+	}
+	if a, ok := h.regs[r]; ok {
+		return a
+	}
+	a := len(h.regs)
+	h.regs[r] = a
+	return a
+}
+
+// region is an imported object graph that has not been written to since: it is hashed by its
+// content digest instead of being traversed at every scheduling point.
+type region struct {
+	tag   string
+	dirty bool
+}
+
+type frozenRef struct {
+	r   *region
+	idx int
+}
+
+// freeze registers everything reachable from roots (and not yet frozen) as one region.
+func (m *Machine) freeze(roots ...Value) {
+	if m.ex.ex.cfg.Mode != "all" {
+		return
+	}
+	h := &hasher{cells: map[*Value]int{}, objs: map[interface{}]int{}, m: m, collect: true}
+	for _, r := range roots {
+		h.val(r)
+		h.sb.WriteString("|")
+	}
+	if len(h.newCells) == 0 && len(h.newObjs) == 0 {
+		return
+	}
+	d := sha256.Sum256([]byte(h.sb.String()))
+	base := fmt.Sprintf("%x", d[:12])
+	if m.regionSeq == nil {
+		m.regionSeq = map[string]int{}
+		m.frozen = map[*Value]frozenRef{}
+		m.frozenObj = map[interface{}]frozenRef{}
+	}
+	r := &region{tag: "R" + base}
+	for i, c := range h.newCells {
+		m.frozen[c] = frozenRef{r, i}
+	}
+	for i, o := range h.newObjs {
+		m.frozenObj[o] = frozenRef{r, i}
+	}
+}
+
+// freezeKeyed registers everything reachable from roots as one region whose content is fully
+// determined by key (the inputs of the native call that produced it): no digest traversal needed.
+func (m *Machine) freezeKeyed(key string, roots ...Value) {
+	if m.ex.ex.cfg.Mode != "all" {
+		return
+	}
+	if m.regionSeq == nil {
+		m.regionSeq = map[string]int{}
+		m.frozen = make(map[*Value]frozenRef, 1<<13)
+		m.frozenObj = make(map[interface{}]frozenRef, 1<<10)
+	}
+	d := sha256.Sum256([]byte(key))
+	base := fmt.Sprintf("%x", d[:12])
+	r := &region{tag: "K" + base}
+	n, no := 0, 0
+	var walk func(v Value)
+	cell := func(c *Value) {
+		if c == nil {
+			return
+		}
+		if _, ok := m.frozen[c]; ok {
+			return
+		}
+		m.frozen[c] = frozenRef{r, n}
+		n++
+		walk(*c)
+	}
+	walk = func(v Value) {
+		switch v := v.(type) {
+		case Ptr:
+			cell(v)
+		case Struct:
+			for i := range v {
+				cell(&v[i])
+			}
+		case Array:
+			for i := range v {
+				cell(&v[i])
+			}
+		case Tuple:
+			for i := range v {
+				walk(v[i])
+			}
+		case *SliceV:
+			if v == nil || v.Nil {
+				return
+			}
+			full := v.A[:cap(v.A)]
+			for i := range full {
+				cell(&full[i])
+			}
+		case *MapV:
+			if v == nil {
+				return
+			}
+			if _, ok := m.frozenObj[v]; ok {
+				return
+			}
+			m.frozenObj[v] = frozenRef{r, no}
+			no++
+			for i := range v.Keys {
+				walk(v.Keys[i])
+				cell(&v.Vals[i])
+			}
+		case Iface:
+			if v.T != nil {
+				walk(v.V)
+			}
+		}
+	}
+	for _, x := range roots {
+		walk(x)
+	}
+}
+
+// regionTagOf returns the tag of the clean frozen region a pointer belongs to ("" if none)
+func (m *Machine) regionTagOf(v Value) string {
+	p, ok := v.(Ptr)
+	if !ok || p == nil || m.frozen == nil {
+		return ""
+	}
+	if fr, ok := m.frozen[(*Value)(p)]; ok && !fr.r.dirty {
+		return fr.r.tag
+	}
+	return ""
+}
+
+// touch is the write barrier of frozen regions
+func (m *Machine) touch(c *Value) {
+	if m.frozen != nil {
+		if fr, ok := m.frozen[c]; ok {
+			fr.r.dirty = true
+		}
+	}
+}
+
+func (m *Machine) touchObj(o interface{}) {
+	if m.frozenObj != nil {
+		if fr, ok := m.frozenObj[o]; ok {
+			fr.r.dirty = true
+		}
+	}
 }
 
 func (h *hasher) cell(c *Value) {
 	if c == nil {
 		h.sb.WriteString("nil")
 		return
+	}
+	if h.m.frozen != nil {
+		if fr, ok := h.m.frozen[c]; ok && !fr.r.dirty {
+			fmt.Fprintf(&h.sb, "%s.%d#%d", fr.r.tag, h.regAlias(fr.r), fr.idx)
+			return
+		}
+	}
+	if h.collect {
+		if _, seen := h.cells[c]; !seen {
+			h.newCells = append(h.newCells, c)
+		}
 	}
 	if id, ok := h.cells[c]; ok {
 		fmt.Fprintf(&h.sb, "@%d", id)
@@ -116,6 +290,23 @@ func (h *hasher) val(v Value) {
 		}
 		fmt.Fprintf(&h.sb, "L%d/%d[", len(v.A), cap(v.A))
 		full := v.A[:cap(v.A)]
+		if len(full) > 64 {
+			allBytes := true
+			for _, x := range full {
+				if _, ok := x.(int64); !ok {
+					allBytes = false
+					break
+				}
+			}
+			if allBytes { // large byte/int buffers: hashed by content, elements not numbered
+				hh := sha256.New()
+				for _, x := range full {
+					fmt.Fprintf(hh, "%d,", x.(int64))
+				}
+				fmt.Fprintf(&h.sb, "bytes:%x]", hh.Sum(nil)[:12])
+				return
+			}
+		}
 		for i := range full {
 			h.cell(&full[i])
 			h.sb.WriteString(",")
@@ -126,9 +317,18 @@ func (h *hasher) val(v Value) {
 			h.sb.WriteString("nilmap")
 			return
 		}
+		if h.m.frozenObj != nil {
+			if fr, ok := h.m.frozenObj[v]; ok && !fr.r.dirty {
+				fmt.Fprintf(&h.sb, "%s.%d@%d", fr.r.tag, h.regAlias(fr.r), fr.idx)
+				return
+			}
+		}
 		id, seen := h.obj(v)
 		fmt.Fprintf(&h.sb, "M%d", id)
 		if !seen {
+			if h.collect {
+				h.newObjs = append(h.newObjs, v)
+			}
 			h.sb.WriteString("{")
 			for i := range v.Keys {
 				h.val(v.Keys[i])
@@ -374,8 +574,17 @@ func (m *Machine) stateHash(cur *G) [32]byte {
 	}
 	sort.Strings(rl)
 	h.sb.WriteString("\nRE:" + strings.Join(rl, ","))
+	if dumpHash != "" {
+		dumpN++
+		if dumpN%200 == 1 {
+			os.WriteFile(fmt.Sprintf("%s_%d.txt", dumpHash, dumpN), []byte(h.sb.String()), 0o644)
+		}
+	}
 	return sha256.Sum256([]byte(h.sb.String()))
 }
+
+var dumpHash = os.Getenv("SYMGO_DUMPHASH")
+var dumpN int
 
 
 // ---- liveness (per function, computed once): a value is live at (block, pc) if some instruction
@@ -384,13 +593,10 @@ func (m *Machine) stateHash(cur *G) [32]byte {
 type liveInfo struct {
 	// liveIn[block] = set of values live at entry of block
 	liveIn map[*ssa.BasicBlock]map[ssa.Value]bool
-	at     map[liveKey]map[ssa.Value]bool
 }
 
-var liveCache = struct {
-	mu sync.Mutex
-	m  map[*ssa.Function]*liveInfo
-}{m: map[*ssa.Function]*liveInfo{}}
+var liveCache sync.Map // *ssa.Function -> *liveInfo
+var liveAtCache sync.Map // liveKey -> map[ssa.Value]bool
 
 type liveKey struct {
 	b  *ssa.BasicBlock
@@ -469,19 +675,18 @@ func liveAt(fn *ssa.Function, b *ssa.BasicBlock, pc int) map[ssa.Value]bool {
 	if fn.Recover != nil {
 		return nil // conservative: named results are reloaded in the recover block
 	}
-	liveCache.mu.Lock()
-	defer liveCache.mu.Unlock()
-	li := liveCache.m[fn]
-	if li == nil {
-		li = computeLive(fn)
-		li.at = map[liveKey]map[ssa.Value]bool{}
-		liveCache.m[fn] = li
+	if l, ok := liveAtCache.Load(liveKey{b, pc}); ok {
+		return l.(map[ssa.Value]bool)
 	}
-	if l, ok := li.at[liveKey{b, pc}]; ok {
-		return l
+	var li *liveInfo
+	if c, ok := liveCache.Load(fn); ok {
+		li = c.(*liveInfo)
+	} else {
+		li = computeLive(fn)
+		liveCache.Store(fn, li)
 	}
 	live := map[ssa.Value]bool{}
-	defer func() { li.at[liveKey{b, pc}] = live }()
+	defer func() { liveAtCache.Store(liveKey{b, pc}, live) }()
 	for _, s := range b.Succs {
 		for v := range li.liveIn[s] {
 			live[v] = true
